@@ -1,17 +1,28 @@
 #!/bin/bash
 # usage: tools/run_seeds.sh [seed-dir-name ...]   — applies each stored seeded change to /repo, runs the
-# quick check of the property it targets, reverts, and prints whether the check raised a VIOLATION.
+# quick check of the property it targets, reverts, prints whether the check raised a VIOLATION and
+# records the outcome in seeded/RESULTS.json (read by tools/gen_design_tables.py).
 cd /verif
-for d in ${@:-$(ls seeded)}; do
+[ -f seeded/RESULTS.json ] || echo '{}' > seeded/RESULTS.json
+for d in ${@:-$(ls -d seeded/*/ | xargs -n1 basename)}; do
   prop=$(echo "$d" | cut -c1-3)
   [ -n "$(git -C /repo status --porcelain)" ] && { echo "REPO DIRTY, abort"; exit 2; }
   if git -C /repo apply --3way "/verif/seeded/$d/patch.diff" 2>/tmp/seed_apply.err; then
     out=$(./check "$prop" --tier quick 2>&1); rc=$?
     n=$(echo "$out" | grep -c "^VIOLATION")
-    echo "seed $d -> check $prop exit=$rc violations=$n $(echo "$out" | grep -m1 'signature' | cut -c1-140)"
+    first=$(echo "$out" | grep -m1 'signature:' | sed 's/^ *signature: //')
+    echo "seed $d -> check $prop exit=$rc violations=$n $first"
+    python3 - "$d" "$rc" "$n" "$first" <<'PY'
+import json,sys
+p='/verif/seeded/RESULTS.json'
+r=json.load(open(p))
+old=r.get(sys.argv[1],{})
+r[sys.argv[1]]={"exit":int(sys.argv[2]),"violations":int(sys.argv[3]),"first":sys.argv[4],"note":old.get("note","")}
+json.dump(r,open(p,'w'),indent=1,sort_keys=True)
+PY
   else
     echo "seed $d -> PATCH DOES NOT APPLY ($(head -1 /tmp/seed_apply.err))"
   fi
-  git -C /repo reset -q --hard HEAD; git -C /repo checkout -q -- . 
+  git -C /repo reset -q --hard HEAD; git -C /repo checkout -q -- .
 done
 ./check --build >/dev/null 2>&1
